@@ -130,6 +130,29 @@ def gen_case(rng, maxn=24):
             "dtype": "int" if rng.random() < 0.15 else "float", "knn": knn, "rad": rad, "style": style}
 
 
+def exhaustive_cases():
+    """Support only (thorough tier): every point sequence of a small finite space, with fixed query sets."""
+    import itertools
+    out = []
+    for n in range(0, 6):                      # dimension 1, coordinates in {0,1,2}
+        for seq in itertools.product(range(3), repeat=n):
+            pts = [[c] for c in seq]
+            for mls in (1, 2):
+                for strategy, seed in (("balanced", 0), ("random", 0), ("random", 1)):
+                    out.append({"dim": 1, "pts": pts, "mls": mls, "strategy": strategy, "seed": seed, "dtype": "float",
+                                "knn": [[[0], 1], [[3], max(1, n)], [[3], n + 1]], "rad": [[[0], 0], [[3], 1], [[2], 4]],
+                                "style": "exhaustive-1d"})
+    sq = [[0, 0], [0, 1], [1, 0], [1, 1]]
+    for n in range(0, 5):                      # dimension 2, coordinates in {0,1}^2
+        for seq in itertools.product(range(4), repeat=n):
+            pts = [list(sq[i]) for i in seq]
+            for mls in (1, 2):
+                out.append({"dim": 2, "pts": pts, "mls": mls, "strategy": "balanced", "seed": 0, "dtype": "float",
+                            "knn": [[[1, 1], 1], [[0, 0], max(1, n - 1)], [[3, 1], n + 2]], "rad": [[[0, 0], 0], [[1, 1], 2], [[2, 0], 4]],
+                            "style": "exhaustive-2d"})
+    return out
+
+
 # ---------------------------------------------------------------------- independent oracle (the property restated)
 def oracle(case, obs):
     """None, or (class-key, message) for the first way the observation violates the C11 sentence."""
@@ -283,7 +306,7 @@ WITNESSES = [
 
 def run(ctx):
     quick = ctx.tier == "quick"
-    n_cases = 1500 if quick else 60000
+    n_cases = 1500 if quick else 30000
     ctx.rule = ("integer point sets of dimension 1-4, 0-24 points (thorough: up to 40), styles uniform / clustered / collinear / "
                 "axis-degenerate / duplicated / all-identical / majority-duplicate / grid; leaf sizes 1-4; strategies balanced / "
                 "fast / random with seeded numpy RNG; per case 3 kNN queries (k in 1..n+2, query on / near / far from the data) "
@@ -308,6 +331,11 @@ def run(ctx):
     cases += [json.loads(json.dumps(w)) for w in WITNESSES]
     maxn = 24 if quick else 40
     cases += [gen_case(ctx.rng, maxn) for _ in range(n_cases)]
+    if not quick:
+        ex = exhaustive_cases()
+        ctx.notes.append("thorough tier also enumerates %d cases exhaustively (all 1-D point sequences over {0,1,2} of length <= 5, "
+                         "all 2-D sequences over {0,1}^2 of length <= 4; leaf sizes 1-2): bounded support, not the theorem" % len(ex))
+        cases += ex
 
     nsh = max(1, min(core.NCPU, len(cases) // 60))
     payloads = [{"cases": cases[i::nsh], "timeout": 2.0 if quick else 4.0} for i in range(nsh)]
@@ -320,6 +348,9 @@ def run(ctx):
     fails = []
     for idx, (c, o) in enumerate(zip(cases, obs)):
         n = len(c["pts"])
+        if o["status"] == "skipped":
+            ctx.count("status=skipped (shard had already shown 3 build time-outs)")
+            continue
         ctx.count("dim=%d" % c["dim"])
         ctx.count("style=" + c.get("style", "?"))
         ctx.count("strategy=" + c["strategy"])
@@ -351,6 +382,8 @@ def run(ctx):
         ctx.obligation("correspondence batches", "correspondence", False, "model does not compile")
 
     reported = set()
+    import time
+    shrink_deadline = time.time() + 45.0      # total time allowed for shrinking, over all failure classes
     for idx, (key, msg) in fails:
         if key in reported:
             continue
@@ -358,7 +391,7 @@ def run(ctx):
         if ctx.known(key):
             ctx.report_known(key, ctx.known(key)["what"])
             continue
-        small = shrink(cases[idx], key)
+        small = shrink(cases[idx], key, budget=max(0.0, min(20.0, shrink_deadline - time.time())))
         o2 = run_one(small)
         m2 = oracle(small, o2)
         ctx.violation("kd-tree: " + (m2[1] if m2 else msg), {"case": small, "observed": o2, "class": key}, key=key)
